@@ -91,6 +91,32 @@ fn main() {
         print!("{}", stress::stress_case(&format!("s{seed}-{i}"), &mut rng, tier == "thorough"));
       }
     }
+    Some("selftest") => {
+      // the monitors must flag hand-made histories that violate the property (oracle sanity)
+      use ops::Res;
+      let cases: Vec<(&str, Vec<(Op, Res)>, &str)> = vec![
+        ("duplicate", vec![(Op::Sub(0, 1), Res::Unit), (Op::Send(0, 1, 5), Res::Ok), (Op::TryRecv(0), Res::Msg(1, 5)), (Op::TryRecv(0), Res::Msg(1, 5))], "topic:unexpected-message"),
+        ("foreign-topic", vec![(Op::Sub(0, 1), Res::Unit), (Op::Send(0, 2, 5), Res::Ok), (Op::TryRecv(0), Res::Msg(2, 5))], "topic:unexpected-message"),
+        ("reorder", vec![(Op::Sub(0, 1), Res::Unit), (Op::Send(0, 1, 5), Res::Ok), (Op::Send(0, 1, 6), Res::Ok), (Op::TryRecv(0), Res::Msg(1, 6))], "topic:message-skipped-or-reordered"),
+        ("lost", vec![(Op::Sub(0, 1), Res::Unit), (Op::Send(0, 1, 5), Res::Ok), (Op::TryRecv(0), Res::Empty)], "topic:message-missing"),
+        ("kept-when-full", vec![(Op::Sub(0, 1), Res::Unit), (Op::Send(0, 1, 5), Res::Ok), (Op::Send(0, 1, 6), Res::Ok), (Op::Send(0, 1, 7), Res::Ok), (Op::TryRecv(0), Res::Msg(1, 5)), (Op::TryRecv(0), Res::Msg(1, 6)), (Op::TryRecv(0), Res::Msg(1, 7))], "topic:unexpected-message"),
+        ("disc-early", vec![(Op::Sub(0, 1), Res::Unit), (Op::Send(0, 1, 5), Res::Ok), (Op::SDrop(0), Res::Unit), (Op::TryRecv(0), Res::Disc)], "topic:disconnected-before-drained"),
+        ("disc-alive", vec![(Op::Sub(0, 1), Res::Unit), (Op::TryRecv(0), Res::Disc)], "topic:disconnected-while-sender-alive"),
+        ("disc-missing", vec![(Op::Sub(0, 1), Res::Unit), (Op::SDrop(0), Res::Unit), (Op::TryRecv(0), Res::Empty)], "topic:disconnected-not-observed"),
+        ("f4a", vec![(Op::Sub(0, 1), Res::Unit), (Op::SClone(0), Res::Handle(1)), (Op::SDrop(1), Res::Unit), (Op::TryRecv(0), Res::Disc)], "topic:sender-clone-drop-disconnects-while-other-sender-alive"),
+        ("clean", vec![(Op::Sub(0, 1), Res::Unit), (Op::Send(0, 1, 5), Res::Ok), (Op::Send(0, 2, 6), Res::Ok), (Op::TryRecv(0), Res::Msg(1, 5)), (Op::TryRecv(0), Res::Empty), (Op::SDrop(0), Res::Unit), (Op::TryRecv(0), Res::Disc)], ""),
+      ];
+      let mut bad = 0;
+      for (name, hist, want) in cases {
+        let mut mon = Mon::new(Family::All, 2, false);
+        for (op, res) in hist { mon.observe(op, res); }
+        let sigs: Vec<String> = mon.out.iter().map(|x| x.0.clone()).collect();
+        let ok = if want.is_empty() { sigs.is_empty() } else { sigs.iter().any(|s| s == want) };
+        println!("selftest {name}: {} got={:?}", if ok { "ok" } else { "FAIL" }, sigs);
+        if !ok { bad += 1; }
+      }
+      if bad > 0 { std::process::exit(1); }
+    }
     _ => { eprintln!("usage: gen --seed S --cases N [--tier T] [--prop P] | run <file> [--prop P] | stress --seed S --cases N"); std::process::exit(2); }
   }
 }
